@@ -293,6 +293,17 @@ MY_SEEDS = {
                         _col("d", "Any", "try:\n  return $c + $b\nexcept Exception:\n  return -5")]]],
     [["BulkAddRecord", "A", [1, 2, 3], {"n": [1, 2, 3], "o": [2, 1, 3]}]],
   ],
+  "c06_trigger": [  # trigger-formula columns with recalcDeps, read by formula columns that sort
+                    # before and after them (col refs: manualSort 1, x 2, y 3, stamp 4, mark 5)
+    [["AddTable", "A", [_col("x", "Int"), _col("y", "Int"),
+                        _col("stamp", "Int", "($x or 0) * 10", isFormula=False),
+                        _col("mark", "Text", "'%s/%s' % ($x, $y)", isFormula=False),
+                        _col("amount", "Any", "($stamp or 0) + 1"),
+                        _col("zz", "Any", "[$stamp, $mark, $amount]")]]],
+    [["UpdateRecord", "_grist_Tables_column", 4, {"recalcWhen": 0, "recalcDeps": ["L", 2]}],
+     ["UpdateRecord", "_grist_Tables_column", 5, {"recalcWhen": 0, "recalcDeps": ["L", 2, 3]}]],
+    [["BulkAddRecord", "A", [None, None], {"x": [1, 2], "y": [5, 6]}]],
+  ],
   "c06_lookup_cycle": [
     [["AddTable", "A", [_col("n", "Int"), _col("k", "Any", "len(A.lookupRecords(k=$n))"),
                         _col("m", "Any", "A.lookupOne(n=$n + 1).m"),
@@ -321,8 +332,8 @@ CYCLE_FORMULAS = [
 # ------------------------------------------------------------------------------------------------
 
 class C06Monitor(explore.Monitor):
-  seeds = ("c06_cycle", "c06_cross", "c06_rows", "c06_lookup_cycle", "basic", "refs", "lookup",
-           "summary")
+  seeds = ("c06_cycle", "c06_cross", "c06_rows", "c06_lookup_cycle", "c06_trigger", "trigger_deps",
+           "basic", "refs", "lookup", "summary")
   length = 4
   weights = {"modify_formula": 12, "add_formula_col": 8, "to_formula": 4, "update": 14,
              "bulk_update": 8, "add": 8, "remove": 5, "multi": 8, "invalid": 1, "view": 0,
@@ -368,8 +379,32 @@ class C06Monitor(explore.Monitor):
         pass
 
   # -- generation: the default mix plus formulas that create / break cycles ------------------------
+  def trigger_update(self, e, g):
+    """One UpdateRecord / BulkUpdateRecord that sets a trigger-formula column explicitly TOGETHER
+    with other data columns of the row (the shape an undo of a plain edit has)."""
+    rng = g.rng
+    tabs = g.doc(e)
+    cands = []
+    for t in g.data_tables(tabs):
+      trig = [c for c in tabs[t][0] if not c[2] and c[3] and c[0] != "manualSort"]
+      if trig and tabs[t][1]: cands.append((t, trig))
+    if not cands: return None
+    t, trig = rng.choice(cands)
+    data = [c for c in tabs[t][0] if not c[2] and not c[3] and c[0] != "manualSort"]
+    vals = {}
+    for c in rng.sample(trig, rng.randint(1, len(trig))) + rng.sample(data, min(len(data), rng.randint(1, 2))):
+      vals[c[0]] = rng.choice(gen.values_for(c[1], rng, e, g.rows_of(e)))
+    rows = tabs[t][1]
+    if rng.random() < 0.6:
+      return [["UpdateRecord", t, rng.choice(rows), vals]]
+    rs = rng.sample(rows, rng.randint(1, len(rows)))
+    return [["BulkUpdateRecord", t, rs, {k: [v] * len(rs) for k, v in vals.items()}]]
+
   def gen_bundle(self, st, e, g):
     r = g.rng.random()
+    if r > 0.8:
+      b = self.trigger_update(e, g)
+      if b: return b
     if r < 0.3:
       tabs = g.doc(e)
       dts = g.data_tables(tabs)
@@ -541,7 +576,7 @@ def main():
   rep.assumptions += [
     common.SHIM_ASSUMPTION,
     "bounded: seeded random histories (vlib/rtc/gen.py alphabet plus cycle-creating formula edits) "
-    "over 8 seed documents, 3 of them with circular references and one with cross-row dependencies; not a proof",
+    "over 10 seed documents, 3 of them with circular references, one with cross-row dependencies, two with trigger-formula columns (recalcDeps); not a proof",
     "the ghost parameter pi permutes the list returned by the real Engine._make_sorted_work_items "
     "(wrapped at class level) keeping '#lookup' items at the end of the list (popped first), which "
     "is the engine's own rule; nested re-ordering driven by OrderError is the engine's own",
